@@ -175,6 +175,8 @@ func runC02(c *core.Ctx) {
 	c02CheckDescriptorCodes(c)
 	c02ReferenceChecks(c, reg)
 	memManifestCheckedBeforeStore(c, "C02.R2")
+	manifestsDecodedWhole(c, "C02.R2")
+	reposNeverForgotten(c, "C02.R5")
 	c05SortedIn(c, "C02.R3", []string{"ocimem"})
 	// R4: a failed operation leaves tags/manifests/blobs untouched (a rejected
 	// tagged push must not bind or move the tag).
